@@ -218,10 +218,11 @@ def generate_dependent_dispatch(tup, handlers, next_call, slf, name, err, nerr):
                         for h, types in handlers
                     ]
                     keyed = reduce(lambda a, b: {**a, **b}, all_keys)
-                    if (
-                        len(keyed) == sum(map(len, all_keys))
-                        and len(featured) < 4
-                    ):
+                    if len(keyed) != sum(map(len, all_keys)):
+                        # Some value is claimed by several handlers: only
+                        # the generic strategy reports that ambiguity.
+                        keyed = None
+                    elif len(featured) < 4:
                         exclusive = True
                         keyexpr = None
                     else:
